@@ -1,6 +1,7 @@
 ---------------------------- MODULE MCSyncer ----------------------------
 EXTENDS Syncer, Json, IOUtils
 ShapeA == << <<>>, <<"a">>, <<"b">> >>
+ShapeZ == << <<>>, <<"a", "EMPTY">>, <<"EMPTY", "b", "EMPTY">> >>     \* transactions of zero length inside a block
 ShapeDup == << <<>>, <<"a">>, <<>>, <<"a">> >>
 ShapeE == << <<>>, <<>>, <<"a">>, <<>> >>
 ShapeBig == << <<>>, <<"a">>, <<>>, <<"a">>, <<"b","c">>, <<>>, <<"b","c">> >>
